@@ -330,3 +330,63 @@ register(Obligation(name="C07.band_energies.k_kplusG_minusk", prop=PROP, engine=
 register(Obligation(name="C07.supercell.mesh_vs_gamma", prop=PROP, engine="B", bounded=True, run=Supercell(), budget={"quick": 600, "thorough": 1800},
                     functions=["eminus.energies:get_E", "eminus.energies:get_Eewald", "eminus.kpoints:gamma_centered", "eminus.kpoints:kpoint_convert", "eminus.gth:init_gth_nonloc"],
                     doc="BOUNDED: N1x1x1 Gamma-centred mesh vs supercell Gamma point for mapped orbitals, each energy contribution"))
+
+
+def native_weight_split(seed):
+    """A k-point with weight 3/4 vs the same k-point listed three times with weight 1/4 each (coefficients and fillings repeated): every energy
+    contribution AND the band energy agree; so do the kinetic energies evaluated from cut-off restricted and from zero-padded full-basis coefficients."""
+    import dataclasses
+
+    from eminus import SCF, Atoms
+    from eminus.dft import orth
+    from eminus.energies import get_E, get_Eband, get_Ekin
+
+    _setup()
+    rng = np.random.default_rng(seed)
+    k1, k2 = np.array([0.05, 0.1, -0.02]), np.array([0.21, -0.13, 0.17])
+    res = []
+    Wa = None
+    for ks, wk, idx in (([k1, k2], [0.25, 0.75], [0, 1]), ([k1, k2, k2, k2], [0.25, 0.25, 0.25, 0.25], [0, 1, 1, 1])):
+        at = Atoms(["Si", "H"], [[0.5, 0.6, 0.4], [2.9, 3.0, 3.3]], ecut=4, a=A_TRI, unrestricted=True)
+        at.s = [11, 11, 13]
+        at.set_k(np.array(ks), np.array(wk))
+        scf = SCF(at, xc="pbe", verbose="critical")
+        at = scf.atoms
+        if Wa is None:
+            Wa = [rng.standard_normal((2, len(at.Gk2c[ik]), at.occ.Nstate)) + 1j * rng.standard_normal((2, len(at.Gk2c[ik]), at.occ.Nstate)) for ik in range(2)]
+        scf.W = orth(at, [Wa[i] for i in idx])
+        scf._precompute()
+        get_E(scf)
+        e = {f.name: float(getattr(scf.energies, f.name)) for f in dataclasses.fields(scf.energies)}
+        e["Eband"] = float(get_Eband(scf, scf.W, **scf._precomputed))
+        # kinetic energy from zero-padded full-basis coefficients
+        ek_a = float(get_Ekin(at, scf.W))
+        full = []
+        for ik in range(at.kpts.Nk):
+            z = np.zeros((2, at.Ns, at.occ.Nstate), dtype=complex)
+            z[:, np.asarray(at.active[ik][0]), :] = np.asarray(scf.W[ik])
+            full.append(z)
+        ek_f = float(get_Ekin(at, full))
+        e["Ekin(full basis) - Ekin(cut-off basis)"] = ek_f - ek_a
+        res.append(e)
+    diffs = {k: abs(res[0][k] - res[1][k]) for k in res[0]}
+    diffs["Ekin(full basis) - Ekin(cut-off basis)"] = max(abs(res[0]["Ekin(full basis) - Ekin(cut-off basis)"]), abs(res[1]["Ekin(full basis) - Ekin(cut-off basis)"]))
+    return max(diffs.values()), dict(check="weights (1/4, 3/4) vs the heavy k-point listed three times; full vs cut-off basis kinetic energy", diffs=diffs)
+
+
+class WeightSplit:
+    def __call__(self, ob, tier, seed):
+        worst, info = native_weight_split(seed)
+        if worst > 1e-9:
+            return Result(REFUTED, backend="native", witness=dict(seed=seed), replayed=True, replay_info=info, detail=f"energies depend on how a k-point weight is split / on the basis layout: {info['diffs']}")
+        return Result(BOUNDED_OK, backend="native", detail=f"bounded: all energy contributions and the band energy agree to {worst:.1e} between weights (1/4, 3/4) and the heavy k-point listed three times; Ekin(full) = Ekin(cut-off)")
+
+    def replay(self, wit):
+        worst, info = native_weight_split(wit["seed"])
+        return bool(worst > 1e-9), info
+
+
+register(Obligation(name="C07.k_weights.split_equivalence_and_full_basis_Ekin", prop=PROP, engine="B", bounded=True, run=WeightSplit(),
+                    functions=["eminus.energies:get_E", "eminus.energies:get_Eband", "eminus.energies:get_Ekin", "eminus.operators:L"], budget={"quick": 300, "thorough": 600},
+                    doc="BOUNDED: a weighted k-point equals the same k-point listed several times with the weight divided (every energy, band energy included); "
+                        "the kinetic energy at k != 0 is the same from cut-off restricted and zero-padded full-basis coefficients"))
